@@ -446,3 +446,67 @@ func H_C14_formatted_interleaved() {
 	}
 	verifReach("C14.interleaved.end")
 }
+
+// zNode: a closer whose Close contains a lock operation (a point at which another goroutine may run) and may fail
+type zNode struct {
+	typ    NodeType
+	mu     sync.Mutex
+	closes int
+	err    error
+}
+
+func (n *zNode) Process(ctx context.Context, e *Event) (*Event, error) { return e, nil }
+func (n *zNode) Reopen() error                                        { return nil }
+func (n *zNode) Type() NodeType                                       { return n.typ }
+func (n *zNode) Close(ctx context.Context) error {
+	n.mu.Lock()
+	n.closes++
+	n.mu.Unlock()
+	return n.err
+}
+
+// C04: a removal whose Close is slow (and may fail) racing with a registration of the same id, or with the registration of
+// a pipeline that lists it: once both have returned, the registry is what one of the two sequential orders leaves
+func H_C04_remove_vs_register() {
+	b, _ := NewBroker()
+	ctx := &vCtx{}
+	n1, n2 := &zNode{typ: NodeTypeSink}, &zNode{typ: NodeTypeSink}
+	if nondetBool() {
+		n1.err = &vErr{"close"}
+	}
+	b.RegisterNode("x", n1)
+	b.RegisterNode("f", &rNode{typ: NodeTypeFormatter})
+	k := symLen(0, 1)
+	var eRem, eOther error
+	verifInterleave(true)
+	verifGo(func() { eRem = b.RemoveNode(ctx, "x") })
+	verifGo(func() {
+		if k == 0 {
+			eOther = b.RegisterNode("x", n2)
+		} else {
+			eOther = b.RegisterPipeline(Pipeline{PipelineID: "p", EventType: "t", NodeIDs: []NodeID{"f", "x"}})
+		}
+	})
+	verifJoin()
+	verifInterleave(false)
+	nu, reg := b.nodes["x"]
+	verifAssert(n1.closes <= 1 && n2.closes <= 1, "C04.remove-vs-register.closed-at-most-once")
+	if k == 0 {
+		// remove;register leaves n2 registered, register;remove leaves nothing (the removal then takes n2)
+		verifAssert(eOther == nil, "C04.remove-vs-register.registration-accepted")
+		if reg {
+			verifAssert(nu.node == Node(n2) && n2.closes == 0, "C04.remove-vs-register.registered-node-is-the-new-one")
+		} else {
+			verifAssert(n2.closes == 1 && n1.closes == 0, "C04.remove-vs-register.removal-took-the-new-node")
+		}
+	} else {
+		// remove;register-pipeline: the pipeline is refused (node gone); register-pipeline;remove: the removal is refused
+		if eOther == nil {
+			verifAssert(reg && eRem != nil && n1.closes == 0, "C04.remove-vs-register.listed-node-stays-registered-and-open")
+		} else {
+			verifAssert(!reg && n1.closes == 1, "C04.remove-vs-register.removed-node-is-gone")
+		}
+	}
+	brokerInvariant(b, "C04.remove-vs-register")
+	verifReach("C04.remove-vs-register.end")
+}
